@@ -426,12 +426,24 @@ func (s *Spec) analyzeResponse(prefix string, k int, res spec.Response) {
 	}
 }
 
+// refFromKey builds the $ref to the JSON pointer used as key by the analyzer.
+//
+// A name may contain a '%' which does not introduce a valid URL escape sequence: it is then escaped, instead of panicking.
+func refFromKey(refURI string) spec.Ref {
+	ref, err := spec.NewRef("#" + refURI)
+	if err != nil {
+		return spec.MustCreateRef("#" + strings.ReplaceAll(refURI, "%", "%25"))
+	}
+
+	return ref
+}
+
 func (s *Spec) analyzeSchema(name string, schema *spec.Schema, prefix string) {
 	refURI := slashpath.Join(prefix, jsonpointer.Escape(name))
 	schRef := SchemaRef{
 		Name:     name,
 		Schema:   schema,
-		Ref:      spec.MustCreateRef("#" + refURI),
+		Ref:      refFromKey(refURI),
 		TopLevel: prefix == "/definitions",
 	}
 
